@@ -12,7 +12,7 @@ From Coq Require Import NArith List.
 From MZ.lib Require Import Mach.
 From MZ.spec Require Import DeflateSpec.
 From MZ.model Require Import DeflateCore.
-From MZ.proofs Require Import DeflateFlags StoredSpec StoredStream StoredSchedules.
+From MZ.proofs Require Import DeflateFlags StoredSpec StoredStream StoredSchedules StoredBlocksShape.
 Local Open Scope N_scope.
 
 Theorem C10_length_tables_inverse : forall i, i < 256 -> len_ok i = true.
@@ -34,3 +34,18 @@ Theorem C10_level0_output_is_a_valid_stream_partial :
     (if hasf flags FLAG_ZLIB then zlib_spec true out else inflate_spec out)
     = SDone (firstn (N.to_nat n) data) (N.of_nat (length out)) blocks.
 Proof. exact level0_every_schedule. Qed.
+
+(* ... and the token-level clause "level 0 emits only stored blocks ... stored lengths <= 65535, exactly one final block":
+   the block list the specification parses out of the level-0 output consists of STORED blocks only (sblk), each with
+   at most 65535 bytes, exactly one of them final and that one the last; their payloads concatenate to the input *)
+Theorem C10_level0_emits_only_stored_blocks_partial :
+  forall (data : list N) (flags wb : N) (sched : list (N * N * N)) (out : list N) (n : N),
+  hasf flags FLAG_RAW = true -> wb <= 15 -> bytes_ok data ->
+  Forall (fun it => legal_flush (snd it)) sched ->
+  drive (comp_new flags wb) data sched nil 0 = Ret (Some (out, n)) ->
+  exists chunks last,
+    Forall (fun ch => N.of_nat (length ch) <= 65535) chunks /\ N.of_nat (length last) <= 65535 /\
+    concat chunks ++ last = firstn (N.to_nat n) data /\
+    (if hasf flags FLAG_ZLIB then zlib_spec true out else inflate_spec out)
+    = SDone (firstn (N.to_nat n) data) (N.of_nat (length out)) (map (sblk false) chunks ++ (sblk true last :: nil)).
+Proof. exact level0_every_schedule_blocks. Qed.
